@@ -4,12 +4,17 @@ C11 — Equities are invariant under suit relabelling and follow player reorderi
 Tallies are defined on the specification's legal deals (`Spec.tally`); by `C02_refines`, `C03_some` and `C01_eval`
 the showdowns the iterator yields are exactly these deals with exactly these hands and winner flags
 (`C11_model_flags`).
+
+Helper lemmas: `Lemmas/TallySwap.lean` (neighbour exchange: lists, `product`, `winnersOf`) and
+`Lemmas/TallyPairs.lean` (sums over unordered pairs of the deck, positions of the full scope).
 -/
 import EspadaVerif.Spec.Tally
 import EspadaVerif.Props.C02
+import EspadaVerif.Lemmas.TallySwap
+import EspadaVerif.Lemmas.TallyPairs
 
 namespace EspadaVerif.C11
-open EspadaVerif Spec
+open EspadaVerif Spec EspadaVerif.TallyLemmas
 
 variable {W : Type}
 
@@ -23,32 +28,350 @@ structure WfSpecInput (flop : List Nat) (entries : List (List (Nat × Nat × W))
   flop_lt : ∀ c ∈ flop, c < 52
   cards : ∀ es ∈ entries, ∀ e ∈ es, e.1 < 52 ∧ e.2.1 < 52 ∧ e.1 ≠ e.2.1
 
+/-! ### relabelling one card, five cards, seven cards -/
+
+/-- relabelling on (rank, suit) -/
+def relabelCard (σ : Nat → Nat) (c : Nat × Nat) : Nat × Nat := (c.1, σ c.2)
+
+theorem cardOfCode_relabel (σ : Nat → Nat) (hσ : SuitPerm σ) (c : Nat) :
+    cardOfCode (relabel σ c) = relabelCard σ (cardOfCode c) := by
+  have := hσ.1 (c % 4) (Nat.mod_lt _ (by omega))
+  simp only [cardOfCode, relabel, relabelCard, Prod.mk.injEq]
+  omega
+
+theorem relabel_lt (σ : Nat → Nat) (hσ : SuitPerm σ) (c : Nat) (hc : c < 52) : relabel σ c < 52 := by
+  have := hσ.1 (c % 4) (Nat.mod_lt _ (by omega))
+  simp only [relabel]
+  omega
+
+theorem relabel_inj (σ : Nat → Nat) (hσ : SuitPerm σ) (a b : Nat) (h : relabel σ a = relabel σ b) : a = b := by
+  have ha := hσ.1 (a % 4) (Nat.mod_lt _ (by omega))
+  have hb := hσ.1 (b % 4) (Nat.mod_lt _ (by omega))
+  simp only [relabel] at h
+  have h1 : a / 4 = b / 4 := by omega
+  have h2 : σ (a % 4) = σ (b % 4) := by omega
+  have h3 := hσ.2 _ _ (Nat.mod_lt _ (by omega)) (Nat.mod_lt _ (by omega)) h2
+  omega
+
+theorem suit_surj (σ : Nat → Nat) (hσ : SuitPerm σ) (s : Nat) (hs : s < 4) : ∃ t, t < 4 ∧ σ t = s := by
+  have h0 := hσ.1 0 (by omega)
+  have h1 := hσ.1 1 (by omega)
+  have h2 := hσ.1 2 (by omega)
+  have h3 := hσ.1 3 (by omega)
+  have n01 : σ 0 ≠ σ 1 := fun e => absurd (hσ.2 0 1 (by omega) (by omega) e) (by omega)
+  have n02 : σ 0 ≠ σ 2 := fun e => absurd (hσ.2 0 2 (by omega) (by omega) e) (by omega)
+  have n03 : σ 0 ≠ σ 3 := fun e => absurd (hσ.2 0 3 (by omega) (by omega) e) (by omega)
+  have n12 : σ 1 ≠ σ 2 := fun e => absurd (hσ.2 1 2 (by omega) (by omega) e) (by omega)
+  have n13 : σ 1 ≠ σ 3 := fun e => absurd (hσ.2 1 3 (by omega) (by omega) e) (by omega)
+  have n23 : σ 2 ≠ σ 3 := fun e => absurd (hσ.2 2 3 (by omega) (by omega) e) (by omega)
+  have : s = σ 0 ∨ s = σ 1 ∨ s = σ 2 ∨ s = σ 3 := by omega
+  rcases this with e | e | e | e
+  · exact ⟨0, by omega, e.symm⟩
+  · exact ⟨1, by omega, e.symm⟩
+  · exact ⟨2, by omega, e.symm⟩
+  · exact ⟨3, by omega, e.symm⟩
+
+theorem relabel_surj (σ : Nat → Nat) (hσ : SuitPerm σ) (n : Nat) (hn : n < 52) :
+    ∃ m, m < 52 ∧ relabel σ m = n := by
+  obtain ⟨t, ht, e⟩ := suit_surj σ hσ (n % 4) (Nat.mod_lt _ (by omega))
+  refine ⟨4 * (n / 4) + t, by omega, ?_⟩
+  have e1 : (4 * (n / 4) + t) / 4 = n / 4 := by omega
+  have e2 : (4 * (n / 4) + t) % 4 = t := by omega
+  simp only [relabel, e1, e2, e]
+  omega
+
+theorem nodup_map_relabel (σ : Nat → Nat) (hσ : SuitPerm σ) (l : List Nat) :
+    (l.map (relabel σ)).Nodup ↔ l.Nodup := by
+  unfold List.Nodup
+  rw [List.pairwise_map]
+  constructor
+  · exact List.Pairwise.imp (fun h e => h (congrArg (relabel σ) e))
+  · exact List.Pairwise.imp (fun h e => h (relabel_inj σ hσ _ _ e))
+
+theorem class5_relabel (σ : Nat → Nat) (hσ : SuitPerm σ) (S : List (Nat × Nat)) (hS : ∀ c ∈ S, c.2 < 4) :
+    class5 (S.map (relabelCard σ)) = class5 S := by
+  have e1 : (S.map (relabelCard σ)).map (·.1) = S.map (·.1) := by
+    rw [List.map_map]
+    rfl
+  have e2 : allSameSuit (S.map (relabelCard σ)) = allSameSuit S := by
+    rw [Bool.eq_iff_iff, Lemmas.allSameSuit_iff, Lemmas.allSameSuit_iff]
+    constructor
+    · intro H x hx y hy
+      have := H _ (List.mem_map_of_mem (f := relabelCard σ) hx) _ (List.mem_map_of_mem (f := relabelCard σ) hy)
+      exact hσ.2 _ _ (hS x hx) (hS y hy) this
+    · intro H x hx y hy
+      obtain ⟨x', hx', rfl⟩ := List.mem_map.mp hx
+      obtain ⟨y', hy', rfl⟩ := List.mem_map.mp hy
+      simp only [relabelCard]
+      rw [H x' hx' y' hy']
+  unfold class5
+  rw [e1, e2]
+
+theorem best_relabelCard (σ : Nat → Nat) (hσ : SuitPerm σ) (Y : List (Nat × Nat)) (hY : ∀ c ∈ Y, c.2 < 4) :
+    best (Y.map (relabelCard σ)) = best Y := by
+  unfold best
+  rw [Lemmas.choose_map, List.map_map]
+  congr 1
+  apply List.map_congr_left
+  intro S hS
+  have hsub := (Lemmas.sublist_of_mem_choose hS).1
+  exact class5_relabel σ hσ S fun c hc => hY c (hsub.subset hc)
+
+/-- `C11_best_suit` without the bound on the codes (it is not needed) -/
+theorem best_relabel (σ : Nat → Nat) (hσ : SuitPerm σ) (cards : List Nat) :
+    best ((cards.map (relabel σ)).map cardOfCode) = best (cards.map cardOfCode) := by
+  have e : (cards.map (relabel σ)).map cardOfCode = (cards.map cardOfCode).map (relabelCard σ) := by
+    simp only [List.map_map]
+    apply List.map_congr_left
+    intro c _
+    exact cardOfCode_relabel σ hσ c
+  rw [e]
+  apply best_relabelCard σ hσ
+  intro c hc
+  obtain ⟨x, _, rfl⟩ := List.mem_map.mp hc
+  exact Nat.mod_lt _ (by omega)
+
 /-- the class of the best hand does not change when the suits are relabelled -/
 theorem C11_best_suit (σ : Nat → Nat) (hσ : SuitPerm σ) (cards : List Nat) (hc : ∀ c ∈ cards, c < 52) :
     best ((cards.map (relabel σ)).map cardOfCode) = best (cards.map cardOfCode) := by
-  sorry
+  have _ := hc  -- the bound is not needed: `relabel` never changes the rank, whatever the code
+  exact best_relabel σ hσ cards
+
+/-! ### the tally as a sum over positions of a count over choices -/
+
+/-- the deal is legal, player `p` is flagged and exactly `k` players are -/
+def dealOK (flop : List Nat) (p k : Nat) (d : Deal W) : Bool :=
+  Deal.legal flop d && ((dealWins flop d)[p]? == some true && (dealWins flop d).countP id == k)
+
+/-- number of choices counted for the turn / river cards `t`, `r` -/
+def posCount (flop : List Nat) (entries : List (List (Nat × Nat × W))) (p k t r : Nat) : Nat :=
+  (product entries).countP fun ch => dealOK flop p k { turn := t, river := r, choice := ch }
+
+theorem countP_congr_eq {α : Type} {p q : α → Bool} {l : List α} (h : ∀ x ∈ l, p x = q x) :
+    l.countP p = l.countP q :=
+  List.countP_congr fun x hx => by rw [h x hx]
+
+theorem tally_eq (flop : List Nat) (entries : List (List (Nat × Nat × W))) (p k : Nat) :
+    tally flop entries p k = ((positionsBetween (0, 1) (48, 49)).map fun pos =>
+      posCount flop entries p k ((deck49 flop).getD pos.1 0) ((deck49 flop).getD pos.2 0)).sum := by
+  unfold tally deals
+  simp only [List.countP_flatMap]
+  congr 1
+  apply List.map_congr_left
+  intro pos _
+  simp only [Function.comp, List.countP_filter, List.countP_map, posCount]
+  apply countP_congr_eq
+  intro ch _
+  simp only [dealOK, Function.comp]
+  rw [Bool.and_comm]
+
+/-! ### exchanging two neighbouring players -/
+
+theorem legal_perm_choice (flop : List Nat) (t r : Nat) (ch ch' : List (Nat × Nat × W)) (h : ch'.Perm ch) :
+    Deal.legal flop { turn := t, river := r, choice := ch' } = Deal.legal flop { turn := t, river := r, choice := ch } := by
+  unfold Deal.legal
+  apply decide_eq_decide.mpr
+  exact (List.Perm.append_left _ (h.flatMap_right _)).nodup_iff
+
+theorem dealOK_swap (flop : List Nat) (i p k t r : Nat) (ch : List (Nat × Nat × W)) (hi : i + 1 < ch.length) :
+    dealOK flop (swapIdx i p) k { turn := t, river := r, choice := swapAt i ch }
+      = dealOK flop p k { turn := t, river := r, choice := ch } := by
+  have hh : dealHands flop ({ turn := t, river := r, choice := swapAt i ch } : Deal W)
+      = swapAt i (dealHands flop { turn := t, river := r, choice := ch }) := by
+    simp only [dealHands, swapAt_map]
+  have hw : dealWins flop ({ turn := t, river := r, choice := swapAt i ch } : Deal W)
+      = swapAt i (dealWins flop { turn := t, river := r, choice := ch }) := by
+    simp only [dealWins, hh, winnersOf_swapAt]
+  have hl : i + 1 < (dealWins flop ({ turn := t, river := r, choice := ch } : Deal W)).length := by
+    simpa [dealWins, winnersOf, dealHands] using hi
+  unfold dealOK
+  rw [legal_perm_choice flop t r ch (swapAt i ch) (swapAt_perm i ch), hw, swapAt_getElem? i p _ hl,
+    (swapAt_perm i _).countP_eq]
+
+theorem posCount_swap (flop : List Nat) (entries : List (List (Nat × Nat × W))) (i : Nat)
+    (hi : i + 1 < entries.length) (p k t r : Nat) :
+    posCount flop (swapAt i entries) (swapIdx i p) k t r = posCount flop entries p k t r := by
+  unfold posCount
+  rw [(product_swapAt i entries hi).countP_eq, List.countP_map]
+  apply countP_congr_eq
+  intro ch hch
+  simp only [Function.comp]
+  exact dealOK_swap flop i p k t r ch (by rw [product_length_eq hch]; exact hi)
+
+/-! ### relabelling the suits of a deal -/
+
+theorem dealOK_symm (flop : List Nat) (p k t r : Nat) (ch : List (Nat × Nat × W)) :
+    dealOK flop p k { turn := t, river := r, choice := ch } = dealOK flop p k { turn := r, river := t, choice := ch } := by
+  have hl : Deal.legal flop ({ turn := t, river := r, choice := ch } : Deal W)
+      = Deal.legal flop { turn := r, river := t, choice := ch } := by
+    unfold Deal.legal
+    apply decide_eq_decide.mpr
+    exact (List.Perm.append_right _ (List.Perm.append_left _ (List.Perm.swap _ _ _))).nodup_iff
+  have hh : dealHands flop ({ turn := t, river := r, choice := ch } : Deal W)
+      = dealHands flop { turn := r, river := t, choice := ch } := by
+    unfold dealHands
+    apply List.map_congr_left
+    intro c _
+    apply Lemmas.best_perm
+    apply List.Perm.map
+    exact ((List.Perm.append_left _ (List.Perm.swap _ _ _)).cons _).cons _
+  unfold dealOK dealWins
+  rw [hl, hh]
+
+theorem posCount_symm (flop : List Nat) (entries : List (List (Nat × Nat × W))) (p k t r : Nat) :
+    posCount flop entries p k t r = posCount flop entries p k r t := by
+  unfold posCount
+  apply countP_congr_eq
+  intro ch _
+  exact dealOK_symm flop p k t r ch
+
+/-- relabelling of one entry -/
+def relabelEntry (σ : Nat → Nat) (e : Nat × Nat × W) : Nat × Nat × W := (relabel σ e.1, relabel σ e.2.1, e.2.2)
+
+theorem dealOK_relabel (σ : Nat → Nat) (hσ : SuitPerm σ) (flop : List Nat) (p k t r : Nat)
+    (ch : List (Nat × Nat × W)) :
+    dealOK (flop.map (relabel σ)) p k { turn := relabel σ t, river := relabel σ r, choice := ch.map (relabelEntry σ) }
+      = dealOK flop p k { turn := t, river := r, choice := ch } := by
+  have hl : Deal.legal (flop.map (relabel σ))
+        ({ turn := relabel σ t, river := relabel σ r, choice := ch.map (relabelEntry σ) } : Deal W)
+      = Deal.legal flop { turn := t, river := r, choice := ch } := by
+    unfold Deal.legal
+    apply decide_eq_decide.mpr
+    have e : flop.map (relabel σ) ++ [relabel σ t, relabel σ r]
+          ++ (ch.map (relabelEntry σ)).flatMap (fun c => [c.1, c.2.1])
+        = (flop ++ [t, r] ++ ch.flatMap (fun c => [c.1, c.2.1])).map (relabel σ) := by
+      simp only [List.map_append, List.map_cons, List.map_nil, List.flatMap_map, List.map_flatMap, relabelEntry]
+    rw [e]
+    exact nodup_map_relabel σ hσ _
+  have hh : dealHands (flop.map (relabel σ))
+        ({ turn := relabel σ t, river := relabel σ r, choice := ch.map (relabelEntry σ) } : Deal W)
+      = dealHands flop { turn := t, river := r, choice := ch } := by
+    unfold dealHands
+    simp only [List.map_map]
+    apply List.map_congr_left
+    intro c _
+    simp only [Function.comp, relabelEntry]
+    have e : relabel σ c.1 :: relabel σ c.2.1 :: (flop.map (relabel σ) ++ [relabel σ t, relabel σ r])
+        = (c.1 :: c.2.1 :: (flop ++ [t, r])).map (relabel σ) := by
+      simp only [List.map_append, List.map_cons, List.map_nil]
+    rw [e]
+    exact best_relabel σ hσ _
+  unfold dealOK dealWins
+  rw [hl, hh]
+
+theorem posCount_relabel (σ : Nat → Nat) (hσ : SuitPerm σ) (flop : List Nat) (entries : List (List (Nat × Nat × W)))
+    (p k t r : Nat) :
+    posCount (flop.map (relabel σ)) (relabelEntries σ entries) p k (relabel σ t) (relabel σ r)
+      = posCount flop entries p k t r := by
+  unfold posCount
+  have e : relabelEntries σ entries = entries.map (List.map (relabelEntry σ)) := rfl
+  rw [e, IterLemmas.product_map, List.countP_map]
+  apply countP_congr_eq
+  intro ch _
+  simp only [Function.comp]
+  exact dealOK_relabel σ hσ flop p k t r ch
+
+/-- the deck of the relabelled flop is the relabelled deck, up to order -/
+theorem deck49_relabel (σ : Nat → Nat) (hσ : SuitPerm σ) (flop : List Nat) :
+    (deck49 (flop.map (relabel σ))).Perm ((deck49 flop).map (relabel σ)) := by
+  rw [List.perm_ext_iff_of_nodup (IterLemmas.deck49_nodup _)
+    ((nodup_map_relabel σ hσ _).mpr (IterLemmas.deck49_nodup _))]
+  intro n
+  simp only [IterLemmas.mem_deck49, List.mem_map]
+  constructor
+  · rintro ⟨hn, hnot⟩
+    obtain ⟨m, hm, rfl⟩ := relabel_surj σ hσ n hn
+    exact ⟨m, ⟨hm, fun hmf => hnot ⟨m, hmf, rfl⟩⟩, rfl⟩
+  · rintro ⟨m, ⟨hm, hmf⟩, rfl⟩
+    refine ⟨relabel_lt σ hσ m hm, ?_⟩
+    rintro ⟨m', hm', e⟩
+    rw [relabel_inj σ hσ _ _ e] at hm'
+    exact hmf hm'
 
 /-- **C11 (suits).** Applying one permutation of the four suits to the flop and to every range leaves every
 player's tally of outright wins (k = 1) and of k-way ties unchanged. -/
 theorem C11_suits (σ : Nat → Nat) (hσ : SuitPerm σ) (flop : List Nat) (entries : List (List (Nat × Nat × W)))
     (h : WfSpecInput flop entries) (p k : Nat) :
     tally (flop.map (relabel σ)) (relabelEntries σ entries) p k = tally flop entries p k := by
-  sorry
+  have hD : (deck49 flop).length = 49 := IterLemmas.deck49_length flop h.flop_len h.flop_nodup h.flop_lt
+  have hD' : (deck49 (flop.map (relabel σ))).length = 49 := by
+    apply IterLemmas.deck49_length
+    · simpa using h.flop_len
+    · exact (nodup_map_relabel σ hσ _).mpr h.flop_nodup
+    · intro n hn
+      obtain ⟨m, hm, rfl⟩ := List.mem_map.mp hn
+      exact relabel_lt σ hσ m (h.flop_lt m hm)
+  rw [tally_eq, tally_eq, positionsBetween_full,
+    sum_allPositions (posCount (flop.map (relabel σ)) (relabelEntries σ entries) p k) _ hD',
+    sum_allPositions (posCount flop entries p k) _ hD,
+    pairSum_perm _ (posCount_symm _ _ p k) (deck49_relabel σ hσ flop), pairSum_map]
+  apply pairSum_congr
+  intro x _ y _
+  exact posCount_relabel σ hσ flop entries p k x y
 
 /-- **C11 (players).** Exchanging two neighbouring players exchanges their tallies and leaves the others'
 unchanged (neighbour exchanges generate every reordering of the players). -/
 theorem C11_players (flop : List Nat) (entries : List (List (Nat × Nat × W))) (i : Nat) (hi : i + 1 < entries.length)
     (p k : Nat) :
     tally flop (swapAt i entries) (swapIdx i p) k = tally flop entries p k := by
-  sorry
+  rw [tally_eq, tally_eq]
+  congr 1
+  apply List.map_congr_left
+  intro pos _
+  exact posCount_swap flop entries i hi p k _ _
+
+/-! ### the pot -/
+
+theorem exists_min (l : List Nat) (hne : l ≠ []) : ∃ m ∈ l, ∀ x ∈ l, m ≤ x := by
+  induction l with
+  | nil => exact absurd rfl hne
+  | cons a l ih =>
+    cases l with
+    | nil => exact ⟨a, by simp, by simp⟩
+    | cons b l =>
+      obtain ⟨m, hm, hle⟩ := ih (by simp)
+      by_cases hc : a ≤ m
+      · refine ⟨a, by simp, ?_⟩
+        intro x hx
+        rcases List.mem_cons.mp hx with rfl | hx
+        · exact Nat.le_refl _
+        · exact Nat.le_trans hc (hle x hx)
+      · refine ⟨m, List.mem_cons_of_mem _ hm, ?_⟩
+        intro x hx
+        rcases List.mem_cons.mp hx with rfl | hx
+        · omega
+        · exact hle x hx
 
 /-- **C11 (pot).** In every deal with at least one player the number of flagged players is at least one, and it is
 the `k` under which each of them is tallied: `k` shares of `1/k` make exactly one pot. -/
 theorem C11_pot (flop : List Nat) (d : Deal W) (hne : d.choice ≠ []) :
     1 ≤ (dealWins flop d).countP id
     ∧ ((dealWins flop d).filter id).length = (dealWins flop d).countP id := by
-  sorry
+  refine ⟨?_, List.countP_eq_length_filter.symm⟩
+  have hne' : dealHands flop d ≠ [] := by
+    unfold dealHands
+    intro h0
+    exact hne (List.map_eq_nil_iff.mp h0)
+  obtain ⟨m, hm, hle⟩ := exists_min _ hne'
+  rw [List.one_le_countP_iff]
+  refine ⟨true, ?_, rfl⟩
+  unfold dealWins winnersOf
+  refine List.mem_map.mpr ⟨m, hm, ?_⟩
+  rw [List.all_eq_true]
+  intro x hx
+  exact decide_eq_true (hle x hx)
 
+/-! ### the iterator's showdowns -/
+
+theorem toSpec_code (c : Card) (hv : c.valid = true) : C01.toSpec c = cardOfCode c.code := by
+  obtain ⟨r, s⟩ := c
+  simp only [Card.valid, Bool.and_eq_true, decide_eq_true_eq] at hv
+  simp only [C01.toSpec, cardOfCode, Card.code, Prod.mk.injEq]
+  omega
+
+theorem toSpec_ofCode (n : Nat) : C01.toSpec (Card.ofCode n) = cardOfCode n := rfl
+
+open EspadaVerif.IterLemmas in
 /-- the iterator's showdown of a legal deal carries exactly the specification's hands and winner flags -/
 theorem C11_model_flags (ops : WOps W) (flop : List Card) (ranges : List (List (Combo × W))) (a b : Nat × Nat)
     (h : C02.WfInput flop ranges) (d : Deal W)
@@ -56,6 +379,39 @@ theorem C11_model_flags (ops : WOps W) (flop : List Card) (ranges : List (List (
     ∃ sd : Showdown W, C02.showdownOfDeal ops flop d = .ok (some sd)
       ∧ sd.players.map (·.hand) = dealHands (flop.map Card.code) d
       ∧ sd.players.map (·.win) = dealWins (flop.map Card.code) d := by
-  sorry
+  have hf : WfFlop flop := ⟨h.flop_len, h.flop_nodup, h.flop_valid⟩
+  have hr : RWf ranges := h.combos
+  rw [deals_eq] at hd
+  simp only [List.mem_flatMap, List.mem_filter, List.mem_map] at hd
+  obtain ⟨p, hp, ⟨ch, hch, rfl⟩, hleg⟩ := hd
+  have hchw : ChWf ch := chWf_of_product hr hch
+  have hpp := mem_positionsBetween hp
+  have hnd := (legal_iff_nodup flop p ch hf hpp hchw).mp hleg
+  obtain ⟨_, hno⟩ := (nodup_split flop p ch hf hpp).mp hnd
+  obtain ⟨sd, h1, _, _, h4, h5, h6, _⟩ := C03.C03_some (flop ++ [cardAt flop p.1, cardAt flop p.2]) (ch.map (·.1))
+    (ch.foldl (fun p c => ops.mul p c.2) ops.one) (wfTable flop p ch hf hpp hchw) hno
+  have hh : sd.players.map (·.hand) = dealHands (flop.map Card.code) (dealOf flop p ch) := by
+    have e1 : sd.players.map (·.hand) = (sd.players.map (·.hole)).map (fun hl =>
+        best ((sevenCards hl (flop ++ [cardAt flop p.1, cardAt flop p.2])).map C01.toSpec)) := by
+      rw [List.map_map]
+      apply List.map_congr_left
+      intro pl hpl
+      exact (h5 pl hpl).2
+    rw [e1, h4]
+    unfold dealHands dealOf
+    simp only [List.map_map]
+    apply List.map_congr_left
+    intro e he
+    obtain ⟨v1, v2, _⟩ := hchw e he
+    have ef : flop.map C01.toSpec = (flop.map Card.code).map cardOfCode := by
+      rw [List.map_map]
+      apply List.map_congr_left
+      intro c hc
+      exact toSpec_code c (hf.valid c hc)
+    simp only [Function.comp, IterLemmas.toSpec, sevenCards, cardAt, List.map_cons, List.map_append, List.map_nil,
+      toSpec_ofCode, toSpec_code _ v1, toSpec_code _ v2, ef]
+  refine ⟨sd, by rw [showdownOfDeal_eq ops flop p ch hchw, h1], hh, ?_⟩
+  rw [h6, hh]
+  rfl
 
 end EspadaVerif.C11
